@@ -25,10 +25,10 @@ CHECKS = {
                 text="In every distinct state (asleep, mid-mark, marked, mid-sweep at every cursor position, shells present) a probe drops the arena: every id destructed exactly once, every Gc block released once with its allocation layout, no arena allocation outstanding, retained Metrics reads 0. Double destruction / double free / layout mismatch are also checked on every transition. The layout grid of C17 and the builder grid of C18 run as further stages (release layout for every value layout; destructor counts of slice / header allocations).",
                 tech="explicit-state BFS + per-state probe (drop arena), tracking allocator"),
     "C05": dict(engine="explorer", cat="model_checking", ref="5/C05",
-                text="In every state every reachable weak pointer is queried (block still allocated, is_dropped == drop log, upgrade Some => undestructed, reachable => Some, None => destructed or Sweeping); upgrade-and-store / upgrade-and-stash are transitions so a stored result is followed through all later collection steps by the safety oracle.",
+                text="In every state every reachable weak pointer is queried (block still allocated, is_dropped == drop log, upgrade Some => undestructed, reachable => Some, None => destructed or Sweeping); formatting a weak pointer ({:?}) is a query as well (the node's Debug impl asks the tracking allocator before it reads); upgrade-and-store / upgrade-and-stash are transitions so a stored result is followed through all later collection steps by the safety oracle.",
                 tech="explicit-state BFS, weak-query monitor in every state, upgrade-store transitions"),
     "C06": dict(engine="explorer", cat="model_checking", ref="5/C06",
-                text="Every sanctioned barrier path (Gc::write/unlock, Gc<Lock>/Gc<RefLock>/Gc<OnceLock> setters, mutate_root/map_root/try_map_root, stash, the four raw barrier forms incl. parent-only with two adoptions and child-only with two parents, the three weak forms, barrier-only calls) is a transition from every state; all later interleavings of collector increments follow by exploration under the safety oracle; C02 probe detects barrier side effects that retain garbage. Also: callbacks that adopt and unwind, weak pointers to unreachable targets changing holders under the explicit weak barriers, get_or_init on an empty OnceLock with a fresh value, and the root re-typing grid.",
+                text="Every sanctioned barrier path (Gc::write/unlock, Gc<Lock>/Gc<RefLock>/Gc<OnceLock> setters, mutate_root/map_root/try_map_root, stash, the four raw barrier forms incl. parent-only with two adoptions and child-only with two parents, the three weak forms, barrier-only calls) is a transition from every state; all later interleavings of collector increments follow by exploration under the safety oracle; C02 probe detects barrier side effects that retain garbage. Also: callbacks that adopt and unwind, weak pointers to unreachable targets changing holders under the explicit weak barriers, get_or_init on an empty OnceLock with a fresh value, the barrier scope under stop-the-world pacing, the root re-typing grid, and 23 programs in which every kind of holder allocation (fat / thin slices, header+slice with zero-sized and non-zero headers, arrays, Vec / Box as the allocated value, the three lock kinds) adopts a fresh object through its sanctioned write path in a fully marked arena under default and stop-the-world pacing.",
                 tech="explicit-state BFS over barrier-path alphabet, closed scopes"),
     "C07": dict(engine="explorer", cat="model_checking", ref="5/C07",
                 text="Finalize / resurrect operations (through finish_marking and through zero-debt mark_debt) in every state of the finalization scopes with non-wrapping collector calls: is_dead vs shadow reachability (exact when no mutation since marking began), resurrect result vs drop log, phase after resurrection, and protection of the strong closure of resurrected objects until the cycle ends. The MarkedArena linearity and token-discipline programs of C08 run here too (is_dead / resurrect need the Finalization context of the same arena: a Mutation, another arena's Finalization or a forged / opened MarkedArena is rejected); weak pointers never traced this cycle (held by dead objects, made inside finalize) and queries after a barrier in the same callback are part of the monitor.",
@@ -37,13 +37,13 @@ CHECKS = {
                 text="Contract table (phase before, call, debt class zero/epsilon/huge) -> allowed (phase after, MarkedArena returned) checked on every transition and by a probe performing each API call with each debt class from every state. Root operations also go through map_root / try_map_root, and the root re-typing grid checks the protocol across a change of the root type. A compile-time half checks that a MarkedArena is a linear token (consumed by finalize / start_sweeping, borrows the arena mutably, cannot be cloned, forged, opened or outlive it; no Finalization context from a Mutation or for another arena).",
                 tech="explicit-state BFS + per-state probe of every API call x debt class"),
     "C10": dict(engine="explorer", cat="model_checking", ref="5/C10",
-                text="Metrics scope with the integer counters in the canonical state (non-tracing leaf objects, trace faults), barrier scope and a depth-bounded natural-debt scope with adjust_debt operations: count vs allocator, debt sign/finite/zero-when-empty, adjust exactness, debt never decreased by callbacks beyond forward-barrier mark credit, no panic (overflow checks and debug assertions are on). A finalization scope covers write barriers on an object revived in the same callback.",
+                text="Metrics scope with the integer counters in the canonical state (non-tracing leaf objects, trace faults), barrier scope and a depth-bounded natural-debt scope with adjust_debt operations: count vs allocator, debt sign/finite/zero-when-empty, adjust exactness, debt never decreased by callbacks beyond forward-barrier mark credit, no panic (overflow checks and debug assertions are on); the harness's own debt normalisation before every debt-driven call is an oracle too (an adjustment of 1e6 cannot vanish, a positive debt adjusted to a target reads the target). A finalization scope covers write barriers on an object revived in the same callback.",
                 tech="explicit-state BFS with metric counters in the state hash; allocator-based count oracle"),
     "C11": dict(engine="explorer", cat="fault_enumeration", ref="5/C11",
-                text="Fault transitions (panic in the k-th Collect::trace call of each collector call, panicking mutate / mutate_root callbacks after they mutated) from every state, unlimited repeats; the caught state continues to be explored under the C01/C05 oracles and C02/C04 probes.",
+                text="Fault transitions (panic in the k-th Collect::trace call of each collector call, panicking mutate / mutate_root callbacks after they mutated) from every state, unlimited repeats, also the same faulty call ten times within one transition (a trace method that keeps panicking); the caught state continues to be explored under the C01/C05 oracles and C02/C04 probes.",
                 tech="exhaustive fault-point enumeration inside explicit-state BFS"),
     "C14": dict(engine="explorer", cat="model_checking", ref="5/C14",
-                text="Stash / stash-after-upgrade / clone / drop / fetch over 1-2 sets and up to 3 handles interleaved with collector increments, slot table in the state hash; handles are roots of the shadow (safety oracle + C02 probe = alive exactly while a handle exists); probes present every handle to the sibling set, to another arena's set and, after dropping the arena, to a live set.",
+                text="Stash / bulk stash (an existing and a fresh object in one callback) / stash-after-upgrade / clone / drop / fetch over 1-2 sets and up to 3 handles interleaved with collector increments, slot table in the state hash; handles are roots of the shadow (safety oracle + C02 probe = alive exactly while a handle exists); probes present every handle to the sibling set, to another arena's set and, after dropping the arena, to a live set; one scope repeats the probe on an explorer built without debug assertions and overflow checks.",
                 tech="explicit-state BFS with dynamic-root alphabet + per-state foreign-presentation probe"),
     "C09": dict(engine="grid", cat="exploration", ref="5/C09", note="Trusted base: the harness workloads and the bound derivation in DESIGN.md 5/C09; configurations outside the enumerated factor values, bursts and workloads are not covered. One known finding (stop-the-world return on an empty heap) is listed in known_findings.json.",
                 text="Every configuration of the stated grid (pacing factors satisfying the documented inequalities incl. stop-the-world, sleep parameters, six workload shapes, bursts, three drivers) is run on the real arena for 120 (thorough 400) rounds chained from the previous state; after every collector call: debt zero or stop phase, cycle bound A < rho*H/(1-rho) for cycles woken by a debt-driven call, stop-the-world rule, and the exact sleep threshold after every debt-free cycle. Scale cases (2 x 100 000 allocations, traceable, held by the root / in a chain / under one table) pacing-switch cases, resurrection cases (one dead object resurrected through 1 / 2 / 64 weak registrations, or an already queued object that many times: the cycle bound holds with one allocation per cycle_debt call) and sleep-switch cases (set_pacing with other sleep parameters during a sleep: the current allowance stays, the next one follows the new pacing) extend the grid; a per-case watchdog turns a collector call that never returns into a verdict.",
@@ -52,7 +52,7 @@ CHECKS = {
                 text="Every (size, alignment) of the table for sized values, slices, str, header+slice (incl. zero-sized and over-aligned headers/elements/lengths), six per-value metadata types and per-type metadata: alignment and extent checked against the allocator block before writing, position-dependent pattern intact across collections and mid-cycle stops, released with the identical layout (collected / arena dropped asleep / arena dropped mid-sweep), fat/thin and raw-pointer round trips preserve address and length. A user-defined pointer metadata for an unsized value (u32 rows whose width is per-type metadata) is allocated, completed / abandoned and released under the same layout pairing.",
                 tech="exhaustive enumeration of a layout grid on the real allocator path with a tracking allocator oracle"),
     "C18": dict(engine="grid", cat="exploration", ref="5/C18", note="Trusted base: tracking allocator, destructor log; element constructors panic via resume_unwind.",
-                text="Every builder kind (incl. header+slice builders made for a Static header / Static elements / both and unwrapped) x abandonment point (fresh, after header, constructor panic at every index k <= n, completed) x element kind (token, no drop glue, zero-sized, over-aligned) x arena phase (Sleeping, Marking, Marked, Sweeping) x copy source length n-1/n/n+1: destructor log equals the initialised parts exactly once, block released, Gc count / debt bits / phase unchanged by abandonment, constructor called exactly once per index in order, later collections and arena drop stay clean.",
+                text="Every builder kind (incl. header+slice builders made for a Static header / Static elements / both and unwrapped) x abandonment point (fresh, after header, constructor panic at every index k <= n, completed) x element kind (token, no drop glue, zero-sized, over-aligned) x arena phase (Sleeping, Marking, Marked, Sweeping) x copy source length n-1/n/n+1: destructor log equals the initialised parts exactly once, block released, Gc count / debt bits / phase unchanged by abandonment, constructor called exactly once per index in order, no destructor runs inside a block that was already released, later collections and arena drop stay clean.",
                 tech="exhaustive enumeration of builder abandonment points on the real code"),
     "C12": dict(engine="probes", cat="exploration", ref="5/C12", note=PROBE_NOTE + " Five root-type shapes of the implied-'static family are listed as known findings (rustc #25860 family).",
                 text="Exhaustive enumeration of the brand-escape grammar (13 branded things x 17 escape routes x 8 API entry points, cross-arena uses under nested mutate / finalize, re-entrant collection calls, shrink/grow variance by value and behind references for 18 types, Send/Sync for 18 types incl. arenas with plain-data roots, root-type shapes implying 'gc: 'static): every negative program must be rejected by rustc, every positive twin accepted; accepted negatives are run to show the consequence. The payload lifetime of every written-to type (builders, Gc<Lock>, Gc<RefLock>) must neither shrink nor grow (D7), collection methods must demand a root that is Collect for every brand, and pointers that come out of conversions are escaping things too.",
@@ -64,7 +64,7 @@ CHECKS = {
                 text="1503 (thorough: more) derived type shapes in one generated program: every struct kind x field combination, one-/two-/three-variant enums incl. require_static fields at the position of a pointer in another variant, generics instantiated with tracing and non-tracing types, modes, bound overrides, gc_lifetime headers; for every shape x active variant the recording Trace multiset must equal the pointers in traced fields (directly and through the NEEDS_TRACE gate) and NEEDS_TRACE must equal the disjunction; ~90 rejection probes with twins for every misuse the statement lists, in several positions.",
                 tech="exhaustive enumeration of a type-shape grammar, generated crate executed against the generator's table; compiler verdict for misuse probes"),
     "C16": dict(engine="probes", cat="exploration", ref="5/C16", note=PROBE_NOTE + " Two feature sets in quick (default, all optional crates).",
-                text="For every provided Collect impl x type-parameter position x element position (sizes 0..3, tuples of every arity x every position, wrapped VecDeque ring buffers, set/unset OnceLock, inline/spilled SmallVec, SlotMap after removal, optional crates) a Gc or GcWeak is placed in exactly that position and the recording Trace multiset compared through the NEEDS_TRACE gate; NEEDS_TRACE true whenever a parameter's is; an end-to-end survival program; 35 types that must not be Collect<'gc> (interior mutability, non-'static references, Static of branded types, foreign brands, hashers holding pointers, static_collect! on branded types) with twins.",
+                text="For every provided Collect impl x type-parameter position x element position (sizes 0..3, tuples of every arity x every position, wrapped VecDeque ring buffers, set/unset OnceLock, inline/spilled SmallVec, SlotMap after removal, optional crates) a Gc or GcWeak is placed in exactly that position and the recording Trace multiset compared through the NEEDS_TRACE gate; NEEDS_TRACE true whenever a parameter's is; an end-to-end survival program; 31 std wrappers / adaptors with no impl today (Cow borrowed from the heap, Reverse, Wrapping, Pin, ManuallyDrop, Poll, ControlFlow, iterators, std cells and locks, 17-tuples, references into the heap) that are either not Collect or keep what they hold alive as a root through two cycles; 35 types that must not be Collect<'gc> (interior mutability, non-'static references, Static of branded types, foreign brands, hashers holding pointers, static_collect! on branded types) with twins.",
                 tech="exhaustive enumeration of impl x position grid in a generated program; compiler verdict for non-Collect probes"),
     "C19": dict(engine="probes", cat="exploration", ref="5/C19", note=PROBE_NOTE + " Run-time half: tracking allocator and destructor log. ZstCache::alloc_zst is a known finding.",
                 text="Run-time half (grid): all chains up to length 2 (thorough 3) of identity-typed conversions on a sized value x 5 terminal conversions, chains up to 3 for slice / str / header+slice / unsized array / RefLock<dyn>, converted weak pointers, upgrade+convert+stash in every collector phase with the handle as the only root, ZstCache<1|8|64> x alignments x entry points: identity, dereference, survival through two cycles, single destruction. The builder grid of C18 runs as a further run-time stage (a builder that completes without the caller having supplied every element hands out a value nobody constructed). Rejection half (probes): every public unsafe fn / unsafe trait used without unsafe, builders' assume_init for uninhabited and private types, safe conjuring attempts.",
